@@ -221,13 +221,33 @@ def run_split(spec, res: Result):
         for i, p in enumerate(trace):
             if "exc" in p or "invalid" in p:
                 break
+            img_before = dict(img)
+            snap_before = snap.to_dict()
             try:
                 out = stepper.step(snap, img)
+                # the same inputs again (every third step): a step is a function of (registers, image) only, and it must
+                # leave the caller's registers and image alone - the second result is the first one
+                out2 = stepper.step(snap, img) if i % 3 == 0 else None
             except BaseException as e:  # noqa: BLE001
                 res.violation({"clause": "split_run_raises", "core": "python"}, {"program": prog, "step": i},
                               f"{type(e).__name__}:{str(e)[:120]}")
                 ok = False
                 break
+            res.monitor("py_stepper_inputs_untouched")
+            if img != img_before or snap.to_dict() != snap_before:
+                res.violation({"clause": "stepper_modifies_its_inputs", "core": "python",
+                               "what": "image" if img != img_before else "registers"},
+                              {"program": prog, "step": i}, {"at": p["at"]})
+                ok = False
+                break
+            if out2 is not None:
+                res.monitor("py_stepper_same_inputs_twice")
+                if (out2.registers.to_dict() != out.registers.to_dict() or
+                        [(w.address, w.value) for w in out2.memory_writes] != [(w.address, w.value) for w in out.memory_writes]):
+                    res.violation({"clause": "same_inputs_different_result", "core": "python", "how": "stepper_twice"},
+                                  {"program": prog, "step": i}, {"at": p["at"]})
+                    ok = False
+                    break
             for wv in out.memory_writes:
                 # the continuous run's memory wraps addresses at 24 bits (vt.pyside.FlatMem); a multi-byte write that
                 # runs past 0xFFFFFF must land on the same cells in the caller-maintained image of the split run
